@@ -28,6 +28,7 @@ Definition key_text (k : key) : str := match k with KeyId s => s | KeyStr s => j
 Definition lits_of_ty (t : ty) : option (list str) :=
   match t with
   | TyLit s => Some [js_unescape s]
+  | TyRef [n] [] => if str_eqb n (L "never") then Some [] else None      (* export type N = never; no literal *)
   | TyUnion ts => mapM (fun t => match t with TyLit s => Some (js_unescape s) | _ => None end) ts
   | _ => None
   end.
@@ -55,8 +56,11 @@ Definition decl_of (n : str) (it : item) : option decl_obs :=
         | Some [EObj props] =>
             option_map DZObject (mapM (fun p => match fst p with Some k => Some (key_text k) | None => None end) props)
         | _ => match is_z_call "enum" e with
+               (* an empty z.enum([]) is the old, invalid way of saying no literal: a distinct observation *)
+               | Some [EArr []] => Some (DZEnum [L "<empty z.enum>"])
                | Some [EArr l] => option_map DZEnum (mapM (fun x => match x with EStr _ s => Some (js_unescape s) | _ => None end) l)
-               | _ => None end
+               | _ => match is_z_call "never" e with Some [] => Some (DZEnum []) | _ => None end   (* z.never() *)
+               end
         end
       else None
   | _ => None
